@@ -214,6 +214,15 @@ Theorem C03_failure_routed_to_owner : routed_by_owner = true.
 Proof. exact routed_by_owner_in_source. Qed.
 Print Assumptions C03_failure_routed_to_owner.
 
+(* benign status traffic before a failure: TASK_RUNNING updates and reconciliation answers, whatever
+   optional ids they carry, change nothing the model keeps (a task stays owned and locked until its
+   executor or agent is reported lost) - under the hypothesis, regenerated from the source by C18's
+   translator, that updateTaskStatus refreshes the ids of a task only from fields the status carries *)
+Theorem C03_benign_status_traffic_inert :
+  refresh_keeps_ownership = true /\ (forall s, run_sop SRefresh s = clear_log s).
+Proof. split; [exact refresh_keeps_ownership_in_source|exact run_sop_refresh]. Qed.
+Print Assumptions C03_benign_status_traffic_inert.
+
 (* the interleaving the harness forces (corpus cases corpus-overtaken-...): the ERROR update of the
    dying critical task is stopped between its two halves, a late RUNNING reply of the same task runs
    to its end, the first goes on: ERROR, run end stamped, although the role reports RUNNING *)
